@@ -41,8 +41,8 @@ impl Prop for P {
     }
     fn strategy(tier: Tier) -> BoxedStrategy<Case> {
         let data = match tier {
-            Tier::Quick => prop_oneof![7 => recipe(4096, 4), 2 => recipe(100_000, 3), 1 => recipe(300_000, 2)].boxed(),
-            Tier::Thorough => prop_oneof![6 => recipe(4096, 5), 3 => recipe(100_000, 4), 1 => recipe(1_500_000, 3)].boxed(),
+            Tier::Quick => prop_oneof![7 => recipe(4096, 4), 2 => recipe(100_000, 3), 1 => recipe(300_000, 2), 2 => crate::gen::data::recipe_wrap()].boxed(),
+            Tier::Thorough => prop_oneof![6 => recipe(4096, 5), 3 => recipe(100_000, 4), 1 => recipe(1_500_000, 3), 3 => crate::gen::data::recipe_wrap()].boxed(),
         };
         (data, level_u8(), any::<bool>()).prop_map(|(data, level, zlib)| Case { data, level, zlib }).boxed()
     }
